@@ -64,11 +64,21 @@ TRANSLATION = {
                 "name": "_clump_loop", "while_var": "indexvar",
                 "params": ["summstats", "clump_p1", "clump_kb", "clump_r2", "gts", "LD_type", "log"],
                 "objects": {"summstats": "SummaryStats"}}),
+            # the whole body of GetOverlappingSamples (two _SortSamples calls, the merge walk, the return statement);
+            # snpgts.samples / strgts.samples are read-only parameters, _SortSamples an untranslated function declared in a
+            # late section (the four functions above keep their text and arity)
+            ("haptools/clump.py", "GetOverlappingSamples", {
+                "name": "_overlap_walk", "top": True,
+                "start": {"assign": "snp_match_inds"}, "stop": {"through_return": True},
+                "params": ["snpgts_samples", "strgts_samples"], "result": None,
+                "obj_attrs": {"snpgts": {"samples": "snpgts_samples"}, "strgts": {"samples": "strgts_samples"}},
+                "late_externals": [("haptools/clump.py", "_SortSamples")]}),
         ],
     },
-    "models": ["TVM_C17"],
-    # TV_C17: the three methods and the loop; TV_C17_Str: clumpstr with the translated loop = the model's clumpstr
-    "proofs": ["TV_C17", "TV_C17_Str"],
+    "models": ["TVM_C17", "TVM_C17O"],
+    # TV_C17: the three methods and the loop; TV_C17_Str: clumpstr with the translated loop = the model's clumpstr;
+    # TV_C17O: GetOverlappingSamples = the model's overlapping
+    "proofs": ["TV_C17", "TV_C17_Str", "TV_C17O"],
 }
 RULE = (
     "clump: 1-3 chromosomes, 0-8 SNPs and 0-5 STRs placed either on a grid of multiples of floor/ceil(kb*1000) (+-1) or "
@@ -1010,7 +1020,114 @@ class TVClump(Clump):
         return "tv_" + super().signature(cfg, obs)
 
 
-RELATIONS = [Clump(), ComputeLDRel(), TVClump()]
+OV_POOL = ["S0", "S1", "S2", "S10", "S9", "NA12878", "NA1", "NA12", "HG00096", "HG00097", "a", "B", "b", "Z", "_x", "",
+           "s 1", "\u00fc", "\u00dc", "10", "9", "1e3"]
+
+
+class TVOverlap(Relation):
+    """GetOverlappingSamples (haptools/clump.py) called directly on two objects that carry a `samples` tuple, and
+    _SortSamples on each tuple; the function's body is evaluated from the MiniPy syntax regenerated from the current
+    source with the model's sort_samples in place of _SortSamples.  agree = the interpreted function, the hand model
+    `overlapping` and the real function return the same two index lists, and the real _SortSamples is sort_samples (the
+    contract under which TV_overlap_walk_refines is stated).  Sample names are interned order-preservingly (rank in
+    Python's string order).  holds is not judged here."""
+    name = "tv_overlap"
+    coq_lib = "HVG"
+    coq_module = "TVM_C17O"
+    coq_check = "check_tv_overlap"
+    coq_case_type = "ovcase"
+    coq_model = "tv_model_overlap"
+    coq_imports = ["C17_Model"]
+    budget = {"quick": 150, "thorough": 3000}
+    max_cases_per_shard = 150
+    anchors = [("haptools/clump.py", "GetOverlappingSamples"), ("haptools/clump.py", "_SortSamples")]
+
+    def generate(self, rng, n, tier):
+        out = []
+        for k in range(n):
+            r = rng.random()
+            if k == 0:
+                # width boundary: more than 256 samples per file, half of them shared
+                a = [f"W{j:04d}" for j in rng.permutation(300)]
+                b = [f"W{j:04d}" for j in rng.permutation(np.arange(150, 450))]
+                out.append({"snp": [str(x) for x in a], "str": [str(x) for x in b]})
+                continue
+            pool = OV_POOL if r < 0.7 else [f"N{j}" for j in range(40)]
+            na, nb = int(rng.integers(0, 9)), int(rng.integers(0, 9))
+            if r < 0.85:
+                a = [str(x) for x in rng.choice(pool, size=min(na, len(pool)), replace=False)]
+                b = [str(x) for x in rng.choice(pool, size=min(nb, len(pool)), replace=False)]
+            else:
+                # repeated names inside one file (the completeness theorem assumes none; agreement must still hold)
+                a = [str(x) for x in rng.choice(pool, size=na, replace=True)]
+                b = [str(x) for x in rng.choice(pool, size=nb, replace=True)]
+            out.append({"snp": a, "str": b})
+        return out
+
+    def exhaustive(self, tier):
+        names = ["a", "b", "c"]
+        out = []
+        for la in range(0, 4):
+            for a in itertools.permutations(names, la):
+                for lb in range(0, 4):
+                    for b in itertools.permutations(names, lb):
+                        out.append({"snp": list(a), "str": list(b)})
+        out.append({"snp": ["a", "a", "b"], "str": ["b", "a", "a"]})
+        return out
+
+    def run_impl(self, inp):
+        import types
+
+        from haptools import clump
+
+        try:
+            so = [[str(s), int(i)] for s, i in zip(*clump._SortSamples(tuple(inp["snp"])))]
+            st = [[str(s), int(i)] for s, i in zip(*clump._SortSamples(tuple(inp["str"])))]
+            a, b = clump.GetOverlappingSamples(types.SimpleNamespace(samples=tuple(inp["snp"])),
+                                               types.SimpleNamespace(samples=tuple(inp["str"])))
+            return {"ok": [[int(x) for x in a], [int(x) for x in b]], "sort_snp": so, "sort_str": st}
+        except Exception as e:  # noqa
+            return {"err": err_kind(e), "cls": type(e).__name__, "msg": str(e)[:200]}
+
+    def encode(self, inp, obs):
+        rank = {s: k for k, s in enumerate(sorted(set(inp["snp"]) | set(inp["str"])))}
+        pairs = lambda l: L.lst(l, lambda p: f"({L.z(rank[p[0]])}, {L.z(p[1])})")
+        if "ok" in obs:
+            ot = f"(Ok ({L.zl(obs['ok'][0])}, {L.zl(obs['ok'][1])}))"
+            so, st = pairs(obs["sort_snp"]), pairs(obs["sort_str"])
+        else:
+            ot, so, st = f"(Err {L.z(obs.get('err', obs.get('kind', 99)))})", "[]", "[]"
+        return (f"(mkov {L.zl([rank[s] for s in inp['snp']])} {L.zl([rank[s] for s in inp['str']])} {so} {st} {ot})")
+
+    def nontrivial(self, inp, obs):
+        return bool(set(inp["snp"]) & set(inp["str"]))
+
+    def classes(self, inp, obs):
+        out = [f"shared:{min(len(set(inp['snp']) & set(inp['str'])), 3)}"]
+        if len(set(inp["snp"])) < len(inp["snp"]) or len(set(inp["str"])) < len(inp["str"]):
+            out.append("repeated-name")
+        if max(len(inp["snp"]), len(inp["str"])) > 256:
+            out.append("more-than-256-samples")
+        return out
+
+    def shrink(self, inp):
+        for k in ("snp", "str"):
+            for j in range(len(inp[k])):
+                yield dict(inp, **{k: inp[k][:j] + inp[k][j + 1:]})
+
+    def mutate(self, inp, rng):
+        for k in ("snp", "str"):
+            if inp[k]:
+                yield dict(inp, **{k: inp[k][::-1]})
+                yield dict(inp, **{k: inp[k] + [inp[k][0]]})
+
+    def signature(self, inp, obs):
+        if isinstance(obs, dict) and "ok" not in obs:
+            return f"tv_overlap GetOverlappingSamples raised {obs.get('cls', obs.get('__exc__', '?'))}"
+        return "tv_overlap: the translated GetOverlappingSamples, the model and the real function disagree"
+
+
+RELATIONS = [Clump(), ComputeLDRel(), TVClump(), TVOverlap()]
 
 LEVEL_TEXT = (
     "Coq theorems over all summary-statistic tables, thresholds, window predicates and r^2 oracles for a Gallina model of "
